@@ -241,6 +241,9 @@ pub fn generated(opts: &Opts, sink: &mut Sink) {
             *features.entry(k).or_insert(0) += v;
         }
         jobs.push((i, "wt".into(), p.source(), p.request(fuel, b"")));
+        if let Some(aliased) = p.source_aliased() {
+            jobs.push((i, "wt-alias".into(), aliased, p.request(fuel, b"")));
+        }
         let sugared = p.source_sugared();
         if sugared != p.source() {
             jobs.push((i, "wt-sugar".into(), sugared, p.request(fuel, b"")));
